@@ -53,9 +53,11 @@ def x86JmpLabel (s : State) (sh : JShape) (opt : FormOpt) (l : Nat) : State × E
       | .unbound _ => none
     match here with
     | some off =>
-      -- "Label bound to the current section."
-      let rel32 : BitVec 32 := (off - BitVec.ofNat 64 ip - BitVec.ofNat 64 inst32).truncate 32
-      emitJmpCallRel s sh opt rel32
+      -- "Label bound to the current section." (repaired, fixes/C03-3.patch: range test in 64-bit mode; the pinned code
+      -- truncated `& 0xFFFFFFFF` unchecked, wrong for sections larger than 2 GiB)
+      let rel64 : BitVec 64 := off - BitVec.ofNat 64 ip - BitVec.ofNat 64 inst32
+      if !s.arch.is32 && !isInt32 rel64 then (s, .invalidDisplacement) else
+      emitJmpCallRel s sh opt (rel64.truncate 32)
     | none =>
       -- "Non-bound label or label bound to a different section."
       match sh.op8 with
